@@ -170,6 +170,8 @@ def judge(args):
         flavours.append({"src": "clstruthy", "call": "asyncdef"})
     if "C01" in want and kind == "full" and not is_agg and tool != "iter":
         flavours.append({"src": "list", "call": "asyncdef"})    # plain lists, edited by the caller once a tool is through with them
+        if any(e["ev"] == "call" for e in case["log"]):
+            flavours.append({"src": "cls", "call": "objfalsy"})   # "all predicates/functions": also a callable object that is falsy
     if "C02" in want and is_agg:
         # the input given as async iterator, list, or one-shot iterator
         flavours = [{"src": f, "call": "asyncdef"} for f in ("cls", "list", "iter")]
@@ -200,6 +202,8 @@ def judge(args):
                 if ee != oe:
                     viol("C01", f"ending-{'-'.join(map(str, oe))}-instead-of-{'-'.join(map(str, ee))}",
                          {"projection": "ending", "expected": ee, "observed": oe})
+                if o.mutations:
+                    viol("C01", "argument-mutated", {"projection": "mutations", "expected": [], "observed": o.mutations, "input": fl["src"]})
                 cnt("C01_cases")
             # C02: result of aggregations, argument objects untouched
             if "C02" in want and fk == "exc" and kind == "full" and is_agg:
